@@ -402,7 +402,7 @@ def loci_rules(repo):
         first = min(s.lineno for s in apps)
         late = [n for n in skips if n.lineno > first]
         if late:
-            out.append(violation("ALIGN", fi, role, "a `%s` at line %d can skip the remaining appends of this locus after `%s` was appended" % (
+            out.append(named("ALIGN", fi, role, "a `%s` at line %d can skip the remaining appends of this locus after `%s` was appended" % (
                 type(late[0]).__name__.lower(), late[0].lineno, unparse([s for s in apps if s.lineno == first][0].value.func.value)), late[0]))
         else:
             # what is appended
